@@ -154,6 +154,30 @@ def mk(rng, interleave, nparts):
     return {"meta": meta, "sql": sql, "rows": rows, "stop": True}
 
 
+def mk_allrows(rng, nparts):
+    """ALL ROWS PER MATCH with CLASSIFIER(): patterns in which one row may satisfy the DEFINE of two variables (A B* C with rows that are
+    both B and C): whatever classification the engine reports must spell a word of the pattern with every row satisfying ITS variable's
+    DEFINE, the match is still the leftmost-longest one, and the running COUNT(B.v) counts the rows classified as B"""
+    pat = rng.choice([seq(var("A"), q(var("B"), 0, -1), var("C")), seq(var("A"), q(var("B"), 1, -1), var("C")), seq(var("A"), q(alt(var("B"), var("C")), 1, -1)),
+                      seq(var("A"), q(var("B"), 0, -1), var("C")), seq(var("A"), q(var("B"), 1, 4), q(var("C"), 1, 2))])
+    ca = rng.choice([3, 4])
+    kb = rng.choice([("lt", 5), ("lt", 4), ("sumle", 12), ("sumle", 9), ("cntle", 5)])
+    kc = rng.choice([("lt", 3), ("lt", 2), ("lt", 4)])
+    defs = [{"v": "A", "k": "gt", "c": ca * 10000}, {"v": "B", "k": kb[0], "c": kb[1] * 10000}, {"v": "C", "k": kc[0], "c": kc[1] * 10000}]
+    txt = {"gt": "v > %d", "lt": "v < %d", "sumle": "SUM(v) <= %d", "cntle": "COUNT(*) <= %d"}
+    dsql = ["A AS " + txt["gt"] % ca, "B AS " + txt[kb[0]] % kb[1], "C AS " + txt[kc[0]] % kc[1]]
+    part = "g" if nparts > 1 else rng.choice(["", "g"])
+    sql = ("SELECT * FROM stream MATCH_RECOGNIZE (%sORDER BY ts MEASURES MATCH_NUMBER() AS mn, CLASSIFIER() AS cls, COUNT(B.v) AS nb ALL ROWS PER MATCH AFTER MATCH SKIP PAST LAST ROW PATTERN (%s) DEFINE %s)"
+           % ("PARTITION BY g " if part else "", psql(pat), ", ".join(dsql)))
+    rows, pv = [], ["p0", "p1", "p2"]
+    for i in range(rng.choice([7, 9, 12]) * nparts):
+        r = {"id": i + 1, "ts": i + 1, "g": pv[rng.randrange(nparts)], "v": rng.choice([5, 6, 1, 1, 2, 2, 0, 3, 1])}
+        if rng.random() < 0.1: del r["v"]
+        rows.append(r)
+    meta = {"fam": "cep", "pat": pat, "defs": defs, "skip": "past", "part": part, "allrows": 1, "cntvar": "B"}
+    return {"meta": meta, "sql": sql, "rows": rows, "stop": True, "norename": True}
+
+
 def run(tier):
     res = vlib.Result("C15", tier)
     rng = random.Random(vlib.seed())
@@ -166,6 +190,8 @@ def run(tier):
         scen.append(mk_skipto(rng, [1, 1, 2][i % 3]))
     for i in range(6 if quick else 60):
         scen.append(mk_idle(rng))
+    for i in range(250 if quick else 8000):
+        scen.append(mk_allrows(rng, [1, 1, 2][i % 3]))
     seqfam.run_scenarios(res, scen, "TraceCep", tag="cep", relayout_p=0.3, retype_p=0.3, rename_p=0.3)
     seqfam.run_pinned(res, "TraceCep")
     res.cov["exhaustive"] = False
